@@ -8,7 +8,7 @@ namespace Pyrtl.Drv
 
 structure SimReq where
   blk : Block
-  order : Option (List Net)
+  order : Option (List Nat)
   wrOrder : Option (List Net)
   regMap : List (Nat × Nat)
   memMap : List (Nat × List (Nat × Nat))
@@ -27,7 +27,7 @@ def parseSimReq (j : Json) : Except String SimReq := do
       | none => throw s!"net index {i} out of range"
   let order ← match fieldD j "order" .null with
     | .null => pure none
-    | o => do pure (some (← idxToNets o))
+    | o => do pure (some (← jNatList o))
   let wrOrder ← match fieldD j "wrorder" .null with
     | .null => pure none
     | o => do pure (some (← idxToNets o))
@@ -58,20 +58,57 @@ def writeConflict (b : Block) (env : Env) : Bool :=
     | _, _ => none
   ws.any fun (m, a, d) => ws.any fun (m', a', d') => m == m' && a == a' && d != d'
 
+/-- Kahn's algorithm over net indices with arrays and hash maps (linear time).  Its result is not
+    trusted: `cmdSim` checks it with `isTopoFast` (= `isTopo`, proved) and checks it is a
+    permutation of the combinational nets. -/
+def kahnFast (b : Block) : Option (List Nat) := Id.run do
+  let nets := b.nets.toArray
+  let n := nets.size
+  let mut producer : Std.HashMap Nat Nat := {}
+  for k in [0:n] do
+    if nets[k]!.op.isComb then producer := producer.insert nets[k]!.dest k
+  let mut pending : Array Nat := Array.replicate n 0
+  let mut readers : Std.HashMap Nat (List Nat) := {}
+  let mut queue : Array Nat := #[]
+  let mut ncomb := 0
+  for k in [0:n] do
+    if nets[k]!.op.isComb then
+      ncomb := ncomb + 1
+      let mut cnt := 0
+      for a in nets[k]!.args do
+        if producer.contains a then
+          cnt := cnt + 1
+          readers := readers.insert a (k :: (readers.getD a []))
+      pending := pending.set! k cnt
+      if cnt == 0 then queue := queue.push k
+  let mut i := 0
+  while i < queue.size do
+    let k := queue[i]!
+    i := i + 1
+    for r in readers.getD nets[k]!.dest [] do
+      let c := pending[r]! - 1
+      pending := pending.set! r c
+      if c == 0 then queue := queue.push r
+  if queue.size == ncomb then some queue.toList else none
+
 def cmdSim (j : Json) : Except String Json := do
   let r ← parseSimReq j
   let model ← jStr (fieldD j "model" (.str "spec"))
   let b := r.blk
   let nw := b.wires.size
-  let order ← match r.order with
+  let orderIdx ← match r.order with
     | some o => pure o
-    | none => match topoSort b with
+    | none => match kahnFast b with
       | some o => pure o
       | none => throw "comb-cycle"
+  let netsArr := b.nets.toArray
+  let order ← orderIdx.mapM fun i => match netsArr[i]? with
+    | some n => pure n
+    | none => throw s!"net index {i} out of range"
   -- the order must be a dependency order of the block's combinational nets (checked, not assumed)
-  if !isTopo order then throw "order-not-topological"
-  if order.length != b.combNets.length || !(b.combNets.all order.contains) then
-    throw "order-not-a-permutation"
+  if !isTopoFast order then throw "order-not-topological"
+  let combIdx := (List.range netsArr.size).filter fun i => netsArr[i]!.op.isComb
+  if orderIdx.toArray.qsort (· < ·) != combIdx.toArray then throw "order-not-a-permutation"
   let regFn := assocFn r.regMap
   let memFn : Nat → Nat → Option Nat := fun m a =>
     match r.memMap.find? (·.1 == m) with
